@@ -547,6 +547,8 @@ func runC06(c *Ctx) {
 	c.assume("cyclonedx-go writes bomFormat \"CycloneDX\" and the specVersion string of the SpecVersion constant it is asked to encode; tools-golang writes the SPDXVersion field verbatim")
 	deferredRewind(c)
 	snifferStreamUses(c)
+	snifferDecodesValues(c)
+	searchOffsetBounded(c, "search-offset-bounded", "pkg/formats")
 
 	const R = "declaration-agreement"
 	c.rule(R, "for every combination of bomFormat / specVersion / spdxVersion values (case literals plus near misses) the JSON branch returns either the empty format with a non-nil error, or a format constant that contains the declaration's family token and `+json` and ends in `;version=<declared version>`, with a nil error")
